@@ -549,6 +549,27 @@ theorem container_consistent {fresh : Nat → U} {pre : List (PreItem N U)} {c :
       fun e he u hu => recorded_wins h (hg e he u hu),
       validate_idem hw h⟩
 
+/-- **validate_idem at the container level** — `c.validated out.st` is the container as
+`validate()` leaves it (every reference re-assigned, `groups` := `get_group_list()`);
+validating it again, from the dictionary and counter left behind, reproduces `out`
+exactly.  (Closes the gap between the occurrence-list statement and the nested object.) -/
+theorem container_validate_idem {fresh : Nat → U} {pre : List (PreItem N U)} {c : Container N U}
+    {out : Out N U} (h : run fresh pre c = .ok out) :
+    runOccs fresh out.st out.next (occsOf (c.validated out.st)) = .ok out := by
+  have hidem := (container_consistent h).2.2.2.2.2
+  unfold run at h
+  cases hp : recordPre (St.empty : St N U) pre with
+  | error e => rw [hp] at h; cases h
+  | ok st =>
+    rw [hp] at h
+    simp only at h
+    obtain ⟨_, _, _, _, hg, hocc⟩ := runOccs_ok h
+    have : occsOf (c.validated out.st) = reOccs out := by
+      rw [occsOf_validated]
+      unfold reOccs
+      rw [hocc, hg]; rfl
+    rw [this]; exact hidem
+
 /-- `obj_id`s of rows inside an inserted block (`PreItem.scratch`) are NOT covered by the
 statement above, and cannot be: the code records them in a throw-away dictionary (known
 finding F-C06-a).  Witness: the block's `split_by_group` row gives uuid 3 to group 7, the
